@@ -8,7 +8,7 @@ import numpy as np
 
 from . import common, tlc
 
-GRID_NAMES = ["q", "b", "m", "a", "z"]     # given order deliberately not alphabetical
+GRID_NAMES = ["q1", "b", "m", "a", "z"]     # given order deliberately not alphabetical
 CASE_NAMES = ["w", "c", "k", "d"]
 CONSTS = {"kattr": 7, "t": [0.5, 1.5]}
 RES = {"bigres": ("r", 1)}
@@ -45,6 +45,15 @@ class Concrete(object):
         self.grid_names = GRID_NAMES[:len(cfg["grid"])]
         self.case_names = CASE_NAMES[:cfg["nca"]]
         self.grid_vals = {nm: values_for(nm, n, fl) for nm, n in zip(self.grid_names, cfg["grid"])}
+        if variant.get("grid_order") and not cfg.get("dup"):
+            # grid values given in a non-ascending order (positions / coordinates follow the order given)
+            for j, nm in enumerate(self.grid_names):
+                v = self.grid_vals[nm]
+                if variant["grid_order"] == "desc" or len(v) < 3:
+                    self.grid_vals[nm] = v[::-1]
+                else:
+                    r = 1 + (j % (len(v) - 1))
+                    self.grid_vals[nm] = v[r:] + v[:r][::-1]
         if cfg.get("dup") and self.grid_names:
             nm = self.grid_names[0]
             self.grid_vals[nm] = list(range(1, cfg["grid"][0] + 1))
@@ -266,7 +275,7 @@ def flatten_nested(nested, axes_lens):
 class _Future(object):
     def __init__(self, ex, i, thunk, style):
         self.ex, self.i, self.thunk = ex, i, thunk
-        self.done = False
+        self._finished = False      # (the future offers result() or get() only, as documented)
         self.value = None
         self.exc = None
         if style == "submit":
@@ -275,12 +284,12 @@ class _Future(object):
             self.get = self._get
 
     def run(self):
-        if not self.done:
+        if not self._finished:
             try:
                 self.value = self.thunk()
             except BaseException as e:  # noqa
                 self.exc = e
-            self.done = True
+            self._finished = True
 
     def _get(self, timeout=None):
         self.ex.demand(self)
@@ -650,10 +659,24 @@ def replay_case(case, variant):
         comps = [(res, None)] if not split else [(res[0], 0), (res[1], 1)]
         if split and len(res) != 2:
             return "split output has %d components" % len(res), drift
+        unordered = bool(cfg["nca"]) and variant.get("values") == "hetero_str"
         for r_, comp in comps:
             leaves, prob = flatten_nested(r_, lens)
             if prob:
                 return "nested output: " + prob, drift
+            if unordered:
+                # the union of unsortable case values may come in any order: every requested setting's result exactly once,
+                # placeholders everywhere else
+                ids = []
+                for leaf in leaves:
+                    i, prob = project_leaf(leaf, rkind, comp)
+                    if prob:
+                        return "nested output: %s" % prob, drift
+                    ids.append(i)
+                if rkind != "bool" and sorted(ids) != sorted(out):
+                    return "nested output holds the results of the settings %r, expected (in some order) %r (0 = missing)" % (
+                        sorted(ids), sorted(out)), drift
+                continue
             for k, leaf in enumerate(leaves):
                 i, prob = project_leaf(leaf, rkind, comp)
                 if prob:
@@ -804,8 +827,12 @@ def variants_for(case, idx, prop, n_variants):
         v = dict(values=VALUE_FLAVOURS[(k + j) % 6], spelling=SPELLINGS[(k // 2 + j) % 4],
                  exec=EXEC_STYLES[(k + j) % 3], seed=[True, 3, 11][(k + j) % 3],
                  cases_as_dict=(k % 2 == 0), noshuffle=[False, 0][(k // 3) % 2], case_key_order=(k % 3 == 1),
-                 dupkind=k % 3, decoy=(k % 2 == 1), bare_cases=(k % 4 < 2), infer_fn_args=(k % 5 < 2))
-        if v["values"] == "hetero_str" and (cfg["kind"] not in ("nested", "flat") or cfg.get("dup") or cfg["nca"]):
+                 dupkind=k % 3, decoy=(k % 2 == 1), bare_cases=(k % 4 < 2), infer_fn_args=(k % 5 < 2),
+                 grid_order=[None, "desc", None, "rot"][(k + j) % 4])
+        # numbers next to strings: positional outputs only (a Dataset coordinate would turn them all into strings); the
+        # union of such case values has no defined order, so a nested case output is then compared as a multiset
+        ok_hs = (not cfg.get("dup")) and cfg["kind"] in ("nested", "flat")
+        if v["values"] == "hetero_str" and not ok_hs:
             v["values"] = "hetero"
         if cfg["kind"] in ("nested", "flat"):
             kinds = RESULT_KINDS_CASES if cfg["nca"] else RESULT_KINDS_GRID
@@ -976,7 +1003,11 @@ def _record_real_runs(rnd, count, shapes, kinds, shared_tp, shared_mp, cr):
         grid = shapes[t % len(shapes)]
         kind = kinds[t % len(kinds)]
         n = math.prod(grid)
-        if kind in ("threadpool", "mp_threadpool", "loky") and n > 4:
+        if kind == "loky" and (t // len(kinds)) % 2 == 1:
+            # the built-in process pool with more settings than 4 x workers, not a multiple of it
+            grid = [[3, 3], [5, 3]][(t // (2 * len(kinds))) % 2]
+            n = math.prod(grid)
+        elif kind in ("threadpool", "mp_threadpool", "loky") and n > 4:
             grid = [2, 2]
             n = 4
         names = GRID_NAMES[:len(grid)]
@@ -1024,7 +1055,15 @@ def _record_real_runs(rnd, count, shapes, kinds, shared_tp, shared_mp, cr):
         else:
             leaves, prob = flatten_nested(res, grid)
             out = [tok.get(float(x), -1) for x in leaves] if not prob else [-1]
-        cfg = mk(grid, shuffle=bool(shuffle), pool=(kind != "seq_shuffle"), kind="flat" if flat else "nested")
+        if kind == "loky" and n > 4:
+            # many settings on a process pool: the order of the calls is not constrained by the property, so the log is
+            # validated as a multiset (sorted, against the sequential model) - the interleaving search of the pool model
+            # is exponential in the number of settings
+            cfg = mk(grid, shuffle=False, pool=False, kind="flat" if flat else "nested")
+            calls = sorted(calls)
+            kind = "loky_many"
+        else:
+            cfg = mk(grid, shuffle=bool(shuffle), pool=(kind != "seq_shuffle"), kind="flat" if flat else "nested")
         traces.append(dict(cfg=cfg, calls=list(calls), out=out, rejected=False, how=kind, shuffle=repr(shuffle), error=error))
     return traces
 
